@@ -119,6 +119,7 @@ func cmdCheck(args []string) {
 	timeout, canaryT, agree := 10, 2, 1
 	if *tier == "thorough" {
 		timeout, canaryT, agree = 60, 5, 2
+		solvers = append(solvers, oldZ3)
 	}
 
 	// generate VCs for every contracted function and every lemma
